@@ -12,6 +12,7 @@ CONSTANTS
   MaxStall = 1
   RotateFollows = TRUE
   WholeBatches = TRUE
+  PollRereads = TRUE
 INVARIANTS TypeOK AppliedIsPrefix NoSplitBatch ExpectedFollowsApplied ReportedLeApplied AckLeApplied PWriteNeverWaits
 PROPERTIES ReportedMonotone AppliedOnlyGrows StalledStaysOut
 CHECK_DEADLOCK FALSE
